@@ -161,10 +161,14 @@ class TU:
     # ---- include resolution ----
     def resolve(self, name, includer_dir, system):
         dirs = ([] if system else [includer_dir]) + self.include_paths
+        if name.startswith("/"):
+            dirs = ["/"]  # an absolute name is opened as it is, in either form
         for d in dirs:
-            cand = self.fs.abspath(posixpath.join(d, name))
+            # the path is tried as spelled: the file system walks it ('nodir/../x.h' leads nowhere when nodir does not
+            # exist, 'link/..' is the parent of the link's target); only a path that opens is normalised
+            cand = posixpath.join(d, name)
             if self.fs.isfile(cand):
-                return cand
+                return self.fs.realpath(cand)
         return None
 
     def include_operand(self, text):
@@ -305,6 +309,8 @@ def run_tu(fs, main, defines=(), include_paths=(), include_files=(), missing_ok=
             if not missing_ok:
                 raise Diagnostic("missing -include " + inc)
             continue
+        if fs.realpath(tgt) in tu.once:
+            continue  # a #pragma once header that an earlier forced include already brought in
         tu.process(tgt)
     tu.process(main)
     return tu
